@@ -24,7 +24,7 @@ ASSUMPTIONS = ['refjs token extents (first token, operator token) for the same t
                'placeholders for omitted for(;;) clauses and zero-token nodes are exempt, as the property states; '
                'token-map entries of semicolons the lexer synthesised (observed through the C04 hook) are exempt']
 BUDGET_S = {'quick': 60, 'thorough': 700}
-REQUIRED_HITS = ['nodes_checked', 'token_map_entries_checked', 'operator_position', 'first_token_position']
+REQUIRED_HITS = ['tokenless_node', 'nodes_checked', 'token_map_entries_checked', 'operator_position', 'first_token_position']
 FLOOR = {'quick': 1500, 'thorough': 12000}
 
 
@@ -57,7 +57,14 @@ def audit(text, tree, res, synthetic_positions):
         stats['nodes'] += 1
         pos, line, col = node.lexpos, node.lineno, node.colno
         if r.first > r.last or r.first < 0:
-            continue        # zero-token node (empty program)
+            # zero-token node (the program of a text without tokens): no own token to lie on, but its offset,
+            # line and column still have to agree with one another
+            stats['tokenless'] = stats.get('tokenless', 0) + 1
+            if isinstance(pos, int) and pos >= 0 and table.linecol(pos) != (line, col):
+                out.append(('C11:line_column_disagree:tokenless_%s' % kind,
+                            '%s at %s (no tokens): lexpos %d is %s:%s by ES5 line counting, node says %s:%s' % (
+                                (kind, path, pos) + table.linecol(pos) + (line, col))))
+            continue
         first_tok = toks[r.first]
         placeholder = (kind == 'EmptyStatement' and path.split('.')[-1] in ('init', 'cond')
                        and text[first_tok.start:first_tok.end] == ';' and pos != first_tok.start)
@@ -167,6 +174,11 @@ class Synth(object):
         self.rec.remove()
 
 
+TOKENLESS = ['', ' ', '\n', '\n\n', '\r\n', '\r', '\u2028\u2029', '   \t', '// c', '// c\n', '/* a */', '/* a\n b */',
+             '/* a\r\n b */ ', '\n\n  // x\n', '\ufeff', '\ufeff\n', '/*a*/\r\n\r\n/*b*/ ', '\xa0\x0b\x0c', '//\u2028//\u2029//',
+             '\n' * 40, '/*\n\n\n*/\n//x\r//y\r\n', ' \n \n ']
+
+
 def check(ctx, synth, text, origin):
     synth.pos = set()
     s = work.both(text)
@@ -187,6 +199,8 @@ def check(ctx, synth, text, origin):
     ctx.hit('operator_position', stats['op'])
     ctx.hit('first_token_position', stats['first'])
     ctx.count('for_clause_placeholders', stats['placeholders'])
+    if stats.get('tokenless'):
+        ctx.hit('tokenless_node', stats['tokenless'])
     ctx.case(text, stats['nodes'] >= 5, sample={'origin': origin, 'text': text[:160], 'nodes': stats['nodes'],
                                                'token_map_entries': stats['entries']}
              if (stats['nodes'] >= 5 and ctx.rng.random() < 0.003) else None)
@@ -227,6 +241,10 @@ def run(ctx):
             if idx % ctx.nshards != ctx.shard or (idx // ctx.nshards) % ctx.pick(6, 1):
                 continue
             check(ctx, synth, text, 'lexical_product')
+        # texts without any token: the program node is all there is
+        for k, text in enumerate(TOKENLESS):
+            if k % ctx.nshards == ctx.shard:
+                check(ctx, synth, text, 'tokenless')
         progs = work.Programs(ctx, ctx.per_shard(400, 9000), opts_fn=opts_fn)
         kinds = set()
         for text, meta in progs:
